@@ -24,6 +24,10 @@ func init() {
 		Technique: "value provenance of channel sends, phi-refined dominance facts (err-phi idiom), arithmetic-safety obligations with call-site context and derived callee postconditions, recover containment, must-precede",
 		Trusted:   "go/types+go/ssa; C01/C02 for the meaning of VerifyRange; purity of header observers and protobuf getters",
 		Run:       runC05,
+		Imports: []Import{
+			{From: "C02.e", As: "C05.g", Why: "every chunk is verified by VerifyRange against the same `from`: 'all returned headers passed Verify' holds only if VerifyRange appends nothing that did not pass (a failure of the first header of a chunk included)"},
+			{From: "C02.d", As: "C05.g", Why: "the heights of a chunk increase by one only if VerifyRange returns nothing past its first adjacency failure"},
+		},
 	})
 }
 
